@@ -8,7 +8,7 @@
    (left half >= n, zero child) by forcing the same HMAC outputs on both sides. *)
 From Coq Require Import NArith ZArith List String Bool.
 From BU Require Import Base.Exn Base.Val Base.Bytes Gen.DerivConsts Extract.ApiCommon.
-From BU Require Import Model.Group Model.Bip32Slip10.
+From BU Require Import Model.Group Model.Bip32Slip10 Model.Electrum.
 Import ListNotations.
 Open Scope string_scope.
 Open Scope N_scope.
@@ -120,6 +120,52 @@ Section ApiDeriv.
     let o1 := if nz pub_first then convert_to_public (pk_ops pk) o else o in
     rb (private_key (pk_ops pk) o1).
 
+  (* ---- histories: a start object and a list of operations
+       start: VL [VN 0; VB seed] | VL [VN 1; VB kb; VN depth; VN index; VB chain; VB pfp]
+            | VL [VN 2; P; VN depth; VN index; VB chain; VB pfp]
+       op:    VL [VN 0; VN i] ChildKey(i) | VL [VN 1] ConvertToPublic()
+            | VL [VN 2; VN is_abs; VL path] DerivePath(Bip32Path(path, is_abs)) | VL [VN 3] PrivateKey() (checked, object kept) ---- *)
+  Definition script_start (pk : packed) (hm : list N -> list N -> list N) (fuel : N) (st : val)
+    : res (obj (pk_ops pk)) :=
+    match st with
+    | VL [VN 0; VB seed] => from_seed hm (pk_ops pk) (to_nat fuel) seed
+    | VL [VN 1; VB kb; VN depth; VN index; VB chain; VB pfp] =>
+        new_priv (pk_ops pk) kb (mk_key_data depth index chain pfp)
+    | VL [VN 2; Pv; VN depth; VN index; VB chain; VB pfp] =>
+        match pk_in pk Pv with
+        | Some P => new_pub (pk_ops pk) P (mk_key_data depth index chain pfp)
+        | None => bad_call
+        end
+    | _ => bad_call
+    end.
+
+  Fixpoint script_ops (pk : packed) (fuel : N) (o : obj (pk_ops pk)) (ops : list val)
+    : res (obj (pk_ops pk)) :=
+    match ops with
+    | [] => Ok o
+    | VL [VN 0; VN i] :: t =>
+        o' <- child_key (o_hash160 ask) (pk_ops pk) (to_nat fuel) o i ;; script_ops pk fuel o' t
+    | VL [VN 1] :: t => script_ops pk fuel (convert_to_public (pk_ops pk) o) t
+    | VL [VN 2; VN is_abs; VL path] :: t =>
+        o' <- derive_path (o_hash160 ask) (pk_ops pk) (to_nat fuel) o (nz is_abs) (vals_N path) ;;
+        script_ops pk fuel o' t
+    | VL [VN 3] :: t =>
+        _ <- private_key (pk_ops pk) o ;; script_ops pk fuel o t
+    | _ => bad_call
+    end.
+
+  Definition run_script (pk : packed) (hm : list N -> list N -> list N) (fuel : N) (st : val) (ops : list val)
+    : res val :=
+    o <- script_start pk hm fuel st ;;
+    o' <- script_ops pk fuel o ops ;;
+    Ok (observe pk o').
+
+  (* ---- Electrum v1 (secp256k1) ---- *)
+  Definition ev1_start (kb : list N) (pub_first : N) : res (ev1 G_secp) :=
+    o <- ev1_from_private_key G_secp kb ;;
+    Ok (if nz pub_first then ev1_to_public G_secp o else o).
+  Definition pub_obs (P : list N) : val := VL [VB (ser_c_xy P); VB (ser_u_xy P)].
+
   Definition kd_of (depth index : N) (chain pfp : list N) : key_data := mk_key_data depth index chain pfp.
 
   Definition api_deriv : list api_entry := [
@@ -140,9 +186,34 @@ Section ApiDeriv.
          let hm := hmac_with (mock_of mock) in
          run_pub (pack curve variant hm) hm fuel Pv (kd_of depth index chain pfp) is_abs (vals_N path)
        | _ => bad_call end);
+    ("slip10_script", fun a => match a with
+       [VN curve; VN variant; VN fuel; VL mock; st; VL ops] =>
+         let hm := hmac_with (mock_of mock) in
+         run_script (pack curve variant hm) hm fuel st ops
+       | _ => bad_call end);
     ("slip10_private_key", fun a => match a with
        [VN curve; VB kb; VN depth; VN index; VB chain; VB pfp; VN pub_first] =>
          run_private_key (pack curve 0 (o_hmac_sha512 ask)) kb (kd_of depth index chain pfp) pub_first
+       | _ => bad_call end);
+    (* ElectrumV1.FromPrivateKey(kb)[ -> FromPublicKey(its public key)].GetPublicKey(change, addr) *)
+    ("ev1_get_public_key", fun a => match a with
+       [VB kb; VN pub_first; VN change; VN addr] =>
+         o <- ev1_start kb pub_first ;;
+         rmap pub_obs (ev1_get_public_key G_secp (o_sha256 ask) o change addr)
+       | _ => bad_call end);
+    ("ev1_get_private_key", fun a => match a with
+       [VB kb; VN pub_first; VN change; VN addr] =>
+         o <- ev1_start kb pub_first ;;
+         rb (ev1_get_private_key G_secp (o_sha256 ask) o change addr)
+       | _ => bad_call end);
+    (* ElectrumV1.FromPublicKey(point).GetPublicKey(change, addr) *)
+    ("ev1_pub_get_public_key", fun a => match a with
+       [Pv; VN change; VN addr] =>
+         match pt_in Pv with
+         | Some P => o <- ev1_from_public_key G_secp P ;;
+                     rmap pub_obs (ev1_get_public_key G_secp (o_sha256 ask) o change addr)
+         | None => bad_call
+         end
        | _ => bad_call end)
   ].
 End ApiDeriv.
